@@ -13,7 +13,7 @@ from .. import tlc
 from ..common import Report, pmap
 from ..e2e import base_scenario, decode_files
 from ..enc import iso, secs_of
-from ..forcedrv import write_files
+from ..forcedrv import file_names, write_files
 
 FAMILY_C = r"^config\."
 FAMILY_P = r"^(pair|same)\."
@@ -47,12 +47,17 @@ def toml_dumps(d, prefix=""):
     return txt
 
 
+def first_file(sc):
+    from ..world import partition
+    return file_names(sc, len(partition(len(sc["ftimes"]), sc["cuts"])))[0]
+
+
 def v2_doc(sc, work):
     fv = sc["fv"]
     out_iv = {v: dict(encoding=dict(datatype=t), attributes=dict(long_name=v)) for v, t in [("pid", "i4"), ("X", "f8"), ("Y", "f8"), ("Z", "f8")]}
     doc = dict(version=2,
                time=dict(start=iso(sc["start"]), stop=iso(sc["stop"]), dt=sc["dt"]),
-               forcing=dict(module="ladim.ROMS", filename=os.path.join(work, "f_*.nc" if fv["wildcard"] else "f_00.nc")),
+               forcing=dict(module="ladim.ROMS", filename=os.path.join(work, "f_*.nc" if fv["wildcard"] else first_file(sc))),
                tracker=dict(advection=fv["adv"]),
                state=dict(particle_variables=dict(release_time="time", **({"farmid": "int"} if fv["extracol"] else {}))),
                release=dict(release_file=os.path.join(work, "r.rls"), names=names(fv), continuous=fv["cont"]),
@@ -64,7 +69,7 @@ def v2_doc(sc, work):
     if fv["gridsec"] != "omitted":
         doc["grid"] = dict(module="ladim.ROMS")
         if fv["gridsec"] == "explicit":
-            doc["grid"]["filename"] = os.path.join(work, "f_00.nc")
+            doc["grid"]["filename"] = os.path.join(work, first_file(sc))
         if fv["subgrid"]:
             doc["grid"]["subgrid"] = list(sc["subgrid_v"])
     if fv["optsec"] == "present":
@@ -86,9 +91,9 @@ def v1_doc(sc, work):
     if fv["cont"]:
         pr["release_type"] = "continuous"
         pr["release_frequency"] = fv["freq"]
-    gf = dict(module="ladim1.gridforce.ROMS", input_file=os.path.join(work, "f_*.nc" if fv["wildcard"] else "f_00.nc"))
+    gf = dict(module="ladim1.gridforce.ROMS", input_file=os.path.join(work, "f_*.nc" if fv["wildcard"] else first_file(sc)))
     if fv["gridsec"] == "explicit":
-        gf["gridfile"] = os.path.join(work, "f_00.nc")
+        gf["gridfile"] = os.path.join(work, first_file(sc))
     if fv["subgrid"] and fv["gridsec"] != "omitted":
         gf["subgrid"] = list(sc["subgrid_v"])
     ov = dict(outper=sc["dt"] * sc["ops"], format="NETCDF4", instance=["pid", "X", "Y", "Z"], particle=(["release_time"] + (["farmid"] if fv["extracol"] else [])) if fv["pvars"] else [],
@@ -133,7 +138,7 @@ def run_spellings(sc):
     from ..pairs import flatten
     fv = sc["fv"]
     work = tlc.scratch("lv_c18_")
-    cfg_trace = [dict(ev="setup", fv=fv, start=sc["start"], stop=sc["stop"], dt=sc["dt"], outper=sc["dt"] * sc["ops"])]
+    cfg_trace = [dict(ev="setup", fv=fv, first=first_file(sc), start=sc["start"], stop=sc["stop"], dt=sc["dt"], outper=sc["dt"] * sc["ops"])]
     pair = [dict(ev="setup", kinds=["same", "same"])]
     try:
         write_files(sc, work)
@@ -204,6 +209,10 @@ def scenario(rng):
               gridsec=gridsec, wildcard=bool(base["cuts"]) or rng.random() < 0.3, optsec=rng.choice(["present", "omitted"]), adv=base["adv"])
     if base["cuts"]:
         fv["wildcard"] = True
+        if rng.random() < 0.5:
+            base["naming"] = "unpadded"
+            # the later files carry a different grid (pm, pn), so taking the grid from another file than the first changes the run
+            base["grid_variant_in_later_files"] = True
     base["fv"] = fv
     i1 = rng.randrange(max(6, base["imax"] - 3), base["imax"])
     j1 = rng.randrange(max(6, base["jmax"] - 3), base["jmax"])
